@@ -350,7 +350,7 @@ def showXOut : XOut → String
   | .stans r => showRes (fun l => "sts=[" ++ ",".intercalate (l.map showStan) ++ "]") r
   | .search r => showRes (fun o => match o with
       | .none => "srch=N" | .nodeText => "srch=node"
-      | .docstring none => "srch=doc:N" | .docstring (some t) => "srch=doc:" ++ Proto.encodeStr t) r
+      | .docstring none => "srch=N" | .docstring (some t) => "srch=doc:" ++ Proto.encodeStr t) r
 
 def showPType : Option Body → String
   | none => "N"
